@@ -95,9 +95,10 @@ package vgirpc
 // handleOAuthCallback: the code is exchanged only after the session cookie was opened with this
 // server's key and max age and the state from the query compared equal (byte for byte, both
 // converted whole) to the state the cookie carries; the verifier sent is the cookie's. The
-// Location of the final redirect is either the cookie's return URL (validated when the cookie
-// was packed, see pkceRedirectToOAuth) followed by the fragment that carries the token, or —
-// with no return URL — exactly what validateOriginalURL made of the cookie's original URL under
+// Location of the final redirect is either the cookie's return URL as THIS instance's
+// validateReturnTo accepts it (repaired defect: it used to be taken verbatim, validated only by
+// whichever instance packed the cookie) followed by the fragment that carries the token, or —
+// with no acceptable return URL — exactly what validateOriginalURL made of the cookie's original URL under
 // the server prefix; the token goes nowhere else in a Location.
 //
 //@ func (*HttpServer).handleOAuthCallback
@@ -120,10 +121,13 @@ package vgirpc
 //@       (forall i int :: 0 <= i && i < len(state) ==> arg0[i] == state[i]) && (forall i int :: 0 <= i && i < len(cookieState) ==> arg1[i] == cookieState[i])
 //@   at call subtle.ConstantTimeCompare setflag stateOK result == 1
 //@   at call exchangeCodeForToken assert [afterstate] cookieOK && stateOK && arg1 == code && arg3 == cookieVerifier && arg2 == pkce.redirectURI
-//@   at call validateOriginalURL assert [sameorigin] arg0 == cookieOriginal && arg1 == pkce.prefix && cookieReturnTo == ""
+//@   pathvar validRT string
+//@   at call validateReturnTo assert [revalidated] arg0 == cookieReturnTo && arg1 == pkce.allowedReturnOrigins && cookieOK && stateOK
+//@   at call validateReturnTo setflag validRT result
+//@   at call validateOriginalURL assert [sameorigin] arg0 == cookieOriginal && arg1 == pkce.prefix && validRT == ""
 //@   at call validateOriginalURL setflag validated result
 //@   at call strings.Join setflag joined result
 //@   pathvar sep string
 //@   at call strings.Contains setflag sep (result ? "&" : "#")
 //@   at call (http.Header).Set assert [location] arg1 == "Location" ==> cookieOK && stateOK &&
-//@       ((cookieReturnTo == "" && arg2 == validated) || (cookieReturnTo != "" && arg2 == cookieReturnTo + sep + joined))
+//@       ((validRT == "" && arg2 == validated) || (validRT != "" && arg2 == validRT + sep + joined))
